@@ -8,7 +8,7 @@ from functools import partial
 from typing import TYPE_CHECKING
 
 # Third Party Imports
-from numpy import ones_like, spacing, zeros
+from numpy import array, ones_like, spacing, zeros
 from scipy.integrate import solve_ivp
 
 # Local Imports
@@ -119,6 +119,44 @@ class Celestial(Dynamics, metaclass=ABCMeta):
 
         return events
 
+    @staticmethod
+    def _coincidentEvents(
+        t_events: list[ndarray],
+        events: list[ScheduledEventType],
+        current_state: ndarray,
+    ) -> list[ndarray]:
+        r"""Complete the event times reported by `solve_ivp` with the events whose root is at the same time.
+
+        Of several terminal events with (numerically) the same root `solve_ivp` reports only the first. The others would
+        never be seen: integration restarts just after the stop, where their event functions are already past zero. An
+        impulse scheduled at the very time a finite burn starts (ends) would swallow the start (end) of the burn, or be
+        swallowed by it.
+
+        Args:
+            t_events (``list``): times of events that occurred during integration, one array per event function.
+            events (``list``): event functions that are ``Callable`` of the form :math:`g(t, y) = 0`.
+            current_state (``ndarray``): state when integration stopped.
+
+        Returns:
+            ``list``: `t_events` where every event function that crosses zero at the stop time has that time.
+        """
+        fired = [t_event[-1] for t_event in t_events if t_event.size > 0]
+        if not fired:
+            return t_events
+        stop_time = max(fired)
+        step = max(spacing(stop_time), _RESTART_STEP)
+        state = current_state.ravel()
+        completed = []
+        for t_event, event in zip(t_events, events):
+            if (
+                t_event.size == 0
+                and isinstance(event, (ScheduledImpulse, ScheduledFiniteThrust, FiniteThrustEnd))
+                and event(stop_time - 4 * step, state) * event(stop_time + step, state) <= 0.0
+            ):
+                t_event = array([stop_time])
+            completed.append(t_event)
+        return completed
+
     def _applyEvents(
         self,
         t_events: ndarray,
@@ -135,7 +173,8 @@ class Celestial(Dynamics, metaclass=ABCMeta):
         Returns:
             ``ndarray``: updated state vector after applying any events.
         """
-        # Save original shape of the input state
+        # [NOTE]: a thrust that starts at the very time another one ends is applied last
+        starting = []
         for event_index, event in enumerate(events):
             if t_events[event_index].size > 0:
                 current_time = t_events[event_index][-1]
@@ -144,12 +183,15 @@ class Celestial(Dynamics, metaclass=ABCMeta):
                         event.thrust_event.end_time,
                     )
                 elif isinstance(event, ScheduledFiniteThrust):
-                    self.finite_thrust = event.getStateChangeCallback(current_time)
+                    starting.append((event, current_time))
                 else:
                     current_state += event.getStateChange(current_time, current_state[:, 0])[
                         :,
                         None,
                     ]
+
+        for event, current_time in starting:
+            self.finite_thrust = event.getStateChangeCallback(current_time)
 
         # A scheduled impulse fires once: drop it so that the restarted integration, which begins
         # within rounding error of the impulse time, cannot detect (and apply) it again.
@@ -219,7 +261,7 @@ class Celestial(Dynamics, metaclass=ABCMeta):
 
             initial_state = solution.y[::, -1].reshape(state_shape)
             initial_state = self._applyEvents(
-                solution.t_events,
+                self._coincidentEvents(solution.t_events, events, initial_state),
                 events,
                 initial_state,
             )
@@ -324,10 +366,11 @@ class Celestial(Dynamics, metaclass=ABCMeta):
             else:
                 # Retrieve the current state & update the initial state for next loop
                 current_time = max(solution.t_events[idx][-1] for idx in fired)
+                current_state = solution.y_events[fired[0]][-1].reshape(state_shape)
                 current_state = self._applyEvents(
-                    t_events=solution.t_events,
+                    t_events=self._coincidentEvents(solution.t_events, events, current_state),
                     events=events,
-                    current_state=solution.y_events[fired[0]][-1].reshape(state_shape),
+                    current_state=current_state,
                 )
 
                 # Properly copies updated state back into full state vector for when
